@@ -77,7 +77,7 @@ theorem primsOK_klgr (P : Params) (h : Nat) : PrimsOK P h keepLogGrowRels where
     · refine ⟨rfl, fun x hx => ?_⟩
       unfold DB.isReplay at *
       simp only [List.any_append, hx, Bool.true_or])
-  insertHolding _ _ := Step.guarded (fun s => klgr_keep _ _ rfl rfl)
+  insertHolding _ _ _ := Step.guarded (fun s => klgr_keep _ _ rfl rfl)
   insertBank _ := Step.guarded (fun s => klgr_keep _ _ rfl rfl)
   updateBank _ _ _ := Step.guarded (fun s => klgr_keep _ _ rfl rfl)
   insertGrade _ _ _ _ _ := Step.guarded (fun s => klgr_keep _ _ rfl rfl)
@@ -185,7 +185,7 @@ theorem applyTxEntry_execOnce (keymr : String) (bo : Nat) (e : TxEntry) :
       rw [hk.1]; exact hnr
     by_cases hconv : e.hasConversions P = true
     · rw [if_pos hconv] at h2
-      exact execOnce_of_keep (((primsOK_klgr P h).insertHolding e keymr).ok h2) hi1
+      exact execOnce_of_keep (((primsOK_klgr P h).insertHolding e keymr trivial).ok h2) hi1
     · rw [if_neg hconv] at h2
       obtain ⟨v, s2, h3, h4⟩ := M.bind_ok h2
       have hi2 := applyBatch_execOnce (validAt_txs_ne_nil hval) hnr1 hi1 h3
